@@ -140,8 +140,13 @@ def eval_pure(ex, st, f, call_args):
     if len(outs) != 1:
         raise Unsupported("closure %s is not single-path (%d)" % (body.name[-40:], len(outs)))
     extra = outs[0].pc[len(st.pc):]
-    if extra:
-        raise Unsupported("closure added path constraints")
+    # constraints added inside a single-path closure only concern values materialised there (lengths of fresh
+    # vectors, discriminant ranges): they are carried over
+    for c in extra:
+        st.pc.append(c)
+    for k, v in outs[0].lazy.items():
+        if k not in st.lazy:
+            st.lazy[k] = v
     return outs[0].result
 
 
@@ -781,6 +786,9 @@ def poll_pending(dty):
 def h_future_poll(ex, st, frame, t, nf, args, dty):
     fut, where = find_future(ex, st, args[0])
     out_ty = output_type_of_future(dty)
+    if isinstance(fut, FutureV) and fut.kind == "stream_next":
+        from . import iters as IT
+        return IT.stream_poll(ex, st, fut, out_ty, dty)
     if isinstance(fut, FutureV) and fut.kind == "lock":
         g = lock_guard_for(ex, st, fut.args[0])
         st.events.append(("await", fut.callee, fut.args, g))
@@ -1130,12 +1138,129 @@ def h_partial_eq(ex, st, frame, t, nf, args, dty):
     return [(Sym(e, "bool"), None)]
 
 
+def _ord_key(ex, st, v):
+    v = deref_val(ex, st, v)
+    if isinstance(v, Sym):
+        return v.t
+    if isinstance(v, Obj) and v.discr is None:
+        f = ex._get_field(st, v, None, 0, "u64")
+        if isinstance(f, Sym):
+            return f.t
+    raise Unsupported("ordering key of %r" % (v,))
+
+
+def h_option_partial_ord(ex, st, frame, t, nf, args, dty):
+    """<Option<T> as PartialOrd>::{lt,le,gt,ge} for T a scalar or a single-field newtype with derived ordering:
+    None < Some(_); Some(a) ? Some(b) by the (unsigned) payload."""
+    a = deref_val(ex, st, args[0])
+    b = deref_val(ex, st, args[1])
+    sa, sb = split_enum(ex, st, a, 1), split_enum(ex, st, b, 1)
+    ka = _ord_key(ex, st, ex._get_field(st, a, "Some", 0, "?"))
+    kb = _ord_key(ex, st, ex._get_field(st, b, "Some", 0, "?"))
+    lt = z3.Or(z3.And(z3.Not(sa), sb), z3.And(sa, sb, z3.ULT(ka, kb)))
+    eq = z3.Or(z3.And(z3.Not(sa), z3.Not(sb)), z3.And(sa, sb, ka == kb))
+    op = nf.rsplit("::", 1)[1]
+    r = {"lt": lt, "le": z3.Or(lt, eq), "gt": z3.And(z3.Not(lt), z3.Not(eq)), "ge": z3.Not(lt)}[op]
+    return [(Sym(r, "bool"), None)]
+
+
+def h_vec_extend(ex, st, frame, t, nf, args, dty):
+    """<Vec<T> as Extend<T>>::extend(&mut v, iterable) / extend_from_slice: append all items in order"""
+    r = vec_ref(ex, st, args[0])
+    v = as_vec(ex, st, r)
+    src = args[1]
+    from .iters import IterV
+    if isinstance(src, IterV):
+        if not src.dense:
+            raise Unsupported("extend from a sparse iterator")
+        items = [x for _, x in src.slots]
+        m = src.count
+    else:
+        sv = as_vec(ex, st, src) if isinstance(src, Ref) else src
+        if not isinstance(sv, VecV):
+            raise Unsupported("extend from %r" % (src,))
+        cm = _conc(sv.len.t)
+        items = [elem_at(ex, st, sv, k) for k in range(sv.cap if cm is None else cm)]
+        m = sv.len.t
+    n = v.len.t
+    cn = _conc(n)
+    total_ok = z3.ULE(n + m, BV64(v.cap))
+    if ex.feasible(st, z3.Not(total_ok)):
+        raise Unsupported("Vec::extend may exceed the modelled capacity %d" % v.cap)
+    new = []
+    for k in range(v.cap):
+        if cn is not None and k < cn:
+            new.append(v.elems[k])
+            continue
+        old = elem_at(ex, st, v, k) if (cn is None) else None
+        e = None
+        for j in range(len(items) - 1, -1, -1):
+            c = BV64(k) == n + BV64(j)
+            e = items[j] if e is None else ex.ite(c, items[j], e)
+        if old is not None and e is not None:
+            e = ex.ite(z3.ULT(BV64(k), n), old, e)
+        elif e is None:
+            e = old
+        new.append(e)
+    nv = VecV(v.elem_ty, v.cap, Sym(z3.simplify(n + m), "usize"), new)
+    ex.write_path(st, r.cell, r.proj, nv)
+    return [(UNIT, None)]
+
+
+def h_sort_by(ex, st, frame, t, nf, args, dty):
+    """slice::sort_by (stable): the result is the stable permutation ordered by the comparator.  Encoded with one
+    position variable per element; the comparator closure is evaluated on every ordered pair.  If the comparator is not
+    a consistent total preorder on the inputs the constraints are unsatisfiable: reported as unsupported, never pruned."""
+    r = vec_ref(ex, st, args[0])
+    v = as_vec(ex, st, r)
+    f = args[1]
+    n = v.len.t
+    cap = v.cap
+    cn = _conc(n)
+    m = cap if cn is None else cn
+    items = [elem_at(ex, st, v, k) for k in range(m)]
+    pos = [z3.BitVec(fresh_name("sortpos%d" % k), 64) for k in range(m)]
+    cons = []
+    for i in range(m):
+        cons.append(z3.Implies(z3.ULT(BV64(i), n), z3.ULT(pos[i], n)))
+        ri = Ref(r.cell, tuple(r.proj) + (("index", BV64(i)),), False, "&" + v.elem_ty)
+        for j in range(m):
+            if i == j:
+                continue
+            rj = Ref(r.cell, tuple(r.proj) + (("index", BV64(j)),), False, "&" + v.elem_ty)
+            o = eval_pure(ex, st, f, [ri, rj])
+            d = ex.get_discr(st, o).t
+            both = z3.And(z3.ULT(BV64(i), n), z3.ULT(BV64(j), n))
+            cons.append(z3.Implies(z3.And(both, d == BV64(-1)), z3.ULT(pos[i], pos[j])))
+            if i < j:
+                cons.append(z3.Implies(z3.And(both, d == BV64(0)), z3.ULT(pos[i], pos[j])))
+                cons.append(z3.Implies(both, pos[i] != pos[j]))
+    if not ex.feasible(st, z3.And(cons) if cons else z3.BoolVal(True)):
+        raise Unsupported("sort_by: comparator is not a consistent total preorder on the modelled inputs")
+    for c in cons:
+        st.pc.append(c)
+    new = []
+    for p in range(cap):
+        e = None
+        for k in range(m - 1, -1, -1):
+            e = items[k] if e is None else ex.ite(pos[k] == BV64(p), items[k], e)
+        new.append(e if p < m else v.elems[p])
+    nv = VecV(v.elem_ty, cap, v.len, new)
+    ex.write_path(st, r.cell, r.proj, nv)
+    return [(UNIT, None)]
+
+
 def h_panic(ex, st, frame, t, nf, args, dty):
     return "panic"
 
 
 STD_SUMMARIES = [
     (r"^<(std::option::)?Option as PartialEq>::(eq|ne)$", h_partial_eq),
+    (r"^<impl AsRef as AsRef<.*>>::as_ref$", h_identity0),
+    (r"^<Vec as (std::iter::)?Extend<.*>>::extend$", h_vec_extend),
+    (r"^Vec::extend_from_slice$", h_vec_extend),
+    (r"^(std|core)::slice::(<impl[^>]*>::)?sort_by$", h_sort_by),
+    (r"^<(std::option::)?Option as PartialOrd>::(lt|le|gt|ge)$", h_option_partial_ord),
     (r"(^|::)(panic_fmt|panic|panic_display|panic_str|unwrap_failed|expect_failed|begin_panic|panic_bounds_check|panic_nounwind|panic_explicit|unreachable_display|assert_failed)$", h_panic),
     (r"^(std::option::)?Option::(as_ref|as_mut)$", h_option_as_ref),
     (r"^(std::option::)?Option::take$", h_option_take),
